@@ -19,7 +19,7 @@ func init() {
 	register(&Driver{
 		ID:        "C18",
 		Technique: "exhaustive enumeration of generated expressions (depth <=2 over literals, placeholders, arithmetic / comparison / boolean / ternary / membership / string operators) x configurations, and of value x constraint pairs (variables and structs, zero values included), one real start each; oracle = direct evaluation of the substituted text with expr, and a fresh validator on the bound value (biconditional)",
-		Rule:      "expressions = all generated terms of depth <=2 bound to int / bool / string fields x 3 configurations (one making a modulo-by-zero); validation = 14 typed values (zero values of int, string, bool included) x 12 constraints (single and joined) as validate arguments on variables, expressions feeding a validated field, and structs bound by prefix with validate struct tags; only pairs the validator library accepts as well-typed; non-trivial = expression containing a placeholder, or a pair whose verdict is 'reject'",
+		Rule:      "expressions = all generated terms of depth <=2 (thorough: integer terms of depth 3) bound to int / bool / string fields x 3 configurations (one making a modulo-by-zero); validation = 14 typed values (zero values of int, string, bool included) x 12 constraints (single and joined) as validate arguments on variables, expressions feeding a validated field, and structs bound by prefix with validate struct tags; only pairs the validator library accepts as well-typed; non-trivial = expression containing a placeholder, or a pair whose verdict is 'reject'",
 		Assumptions: []string{
 			"constraints that are ill-typed for the value make the validator library itself panic and are outside the domain",
 			"division (float results) and expressions longer than depth 2 are not covered",
@@ -72,6 +72,17 @@ func c18Exprs(thorough bool) (ints, bools, strs []string) {
 		for _, b := range leaves {
 			for _, o := range intOps {
 				ints = append(ints, "("+a+o+b+")")
+			}
+		}
+	}
+	if thorough {
+		// depth 3: every depth-2 term combined once more
+		d2 := append([]string{}, ints[6+lim:]...)
+		for _, a := range d2 {
+			for _, b := range leaves[:4] {
+				for _, o := range intOps {
+					ints = append(ints, "("+a+o+b+")")
+				}
 			}
 		}
 	}
